@@ -29,5 +29,6 @@ TECHNIQUE = "stateful property-based testing of the real ConsumerGroup (Coordina
 RULE = (
     "traces over one ConsumerGroup member (1-2 topics x 1-3 partitions, session 6/30 s, heartbeat 1/2 s, backoffs 0.3-1 / 0.1 / 1.5-10 s, auto-commit every n / ms) on a 1-2 broker simulated cluster whose group coordinator is a model of Kafka's Empty/PreparingRebalance/AwaitingSync/Stable machine with session and rebalance timers; 0-3 ghost members join, leave, die (session expiry) or stall their rejoin, a ghost leader deals assignments with a drawn rotation so partitions move; steps: start, deliver/hold a reply, fire a timer, wait, append, complete an async processor call, error codes on join/sync/heartbeat/commit/lookup/offset-fetch/fetch, held replies, connection drops, brokers down/up, coordinator and leader moves, stop. oracle (wire, call outcomes, processor entries, model ledger): between this member's JoinGroup write and the success of the SyncGroup of that exchange no Fetch/ListOffsets/OffsetFetch/OffsetCommit for group partitions is written and the processor is not entered (so consumers of the previous generation - also after an eviction - are down before any rejoin); at a rejoin that follows an undisturbed generation the offset store holds the last successfully processed offset of every assigned partition unless a commit was rejected, failed or is unanswered; consumer traffic and processor entries concern only partitions of the assignment parsed (independent parser) from the member's current SyncGroup reply; the first Fetch of a partition in a generation is at the committed offset delivered to the member + 1 (or inside the log when none is stored); every OffsetCommit carries generation and member id of the latest successful JoinGroup result; at most one JoinGroup/SyncGroup call is pending; a Heartbeat is written only between the successful sync of the generation it names and the next JoinGroup write / failed heartbeat, naming the current member; after the Deferred returned by stop() has fired no JoinGroup/SyncGroup/Heartbeat is written, no consumer activity occurs and no delayed call remains. non-trivial = a second generation after the member consumed in the first, an eviction while consuming, progress committed before a rejoin, an assignment that changed across generations, or a rejoin with commit trouble; distinct = distinct trace."
     ' stop() is also placed inside the first join/sync exchange and inside a rebalance, right after a chosen request (FindCoordinator, JoinGroup, SyncGroup, Metadata) was written (step runto); topic-level metadata errors (op mderr) and differently ordered partition listings (md_order) are part of the world.'
+    " Script 'overlap': a heartbeat's error answer delivered late, a commit the coordinator rejects, optionally a JoinGroup error and a failing coordinator lookup (retry timer pending), the next JoinGroup possibly left unanswered - steps live/liveto let the world run in time order for t virtual seconds or until a request kind is written."
 )
 ASSUMPTIONS = ['vlib/simgroup.py models a 0.10-era GroupCoordinator (JoinGroup/SyncGroup/Heartbeat/LeaveGroup v0, OffsetCommit v1 generation check); it is self-checked against a ghost-only rebalance script before use', 'group call outcomes are observed by a pass-through callback on the Deferred KafkaClient._send_request_to_coordinator / send_offset_commit_request return to the coordinator code; scheduled rejoins by wrapping the public join_and_sync() on the instance', 'what evicted consumers do between the evicting answer and the next JoinGroup is reported as a statistic only: the property demands they are stopped before any rejoin']
